@@ -361,6 +361,21 @@ func (b *Builder) resolvePending(ctx context.Context) (diags Diagnostics) {
 	return diags
 }
 
+// explicitlyListed reports whether a finite version set names v. Set.Has
+// answers false for 0.0.0 in every set but versions.All, even in one that was
+// built from it (versions.Only for an already-versioned source address).
+func explicitlyListed(set versions.Set, v versions.Version) bool {
+	if !set.IsFinite() {
+		return false
+	}
+	for _, listed := range set.List() {
+		if listed == v {
+			return true
+		}
+	}
+	return false
+}
+
 func (b *Builder) findRegistryPackageSource(ctx context.Context, sourceAddr sourceaddrs.RegistrySource, allowedVersions versions.Set) (sourceaddrs.RemoteSource, error) {
 	// NOTE: This expects to be called while b.mu is already locked.
 
@@ -406,7 +421,7 @@ func (b *Builder) findRegistryPackageSource(ctx context.Context, sourceAddr sour
 		// search there, so it never finds a pre-release of 0.0.0 either.
 		found := false
 		for _, v := range availableVersions {
-			if allowedVersions.Has(v) && (!found || v.GreaterThan(selectedVersion)) {
+			if (allowedVersions.Has(v) || explicitlyListed(allowedVersions, v)) && (!found || v.GreaterThan(selectedVersion)) {
 				selectedVersion, found = v, true
 			}
 		}
